@@ -103,6 +103,26 @@ func policyViolations(r sourceaddrs.RemoteSource) []string {
 	if u.User != nil {
 		out = append(out, "address carries user information")
 	}
+	// the policy above reads the query leniently (Query() drops pairs it cannot parse); the query that
+	// is kept and printed is RawQuery, so every raw pair must be a permitted one (seed C07-c)
+	if u.RawQuery != "" {
+		if _, err := url.ParseQuery(u.RawQuery); err != nil {
+			out = append(out, "kept query "+fmt.Sprintf("%q", u.RawQuery)+" does not parse strictly, so it was not what the policy checked")
+		}
+		for _, pair := range strings.Split(u.RawQuery, "&") {
+			k, _, _ := strings.Cut(pair, "=")
+			if uk, err := url.QueryUnescape(k); err == nil {
+				k = uk
+			}
+			switch {
+			case pair == "":
+			case ty == "git" && k != "ref":
+				out = append(out, "git address keeps raw query pair "+fmt.Sprintf("%q", pair))
+			case ty != "git" && k == "checksum":
+				out = append(out, "archive address keeps raw query pair "+fmt.Sprintf("%q", pair))
+			}
+		}
+	}
 	if sp := r.SubPath(); sp != "" {
 		for _, seg := range strings.Split(sp, "/") {
 			if seg == "" || seg == "." || seg == ".." {
@@ -118,7 +138,8 @@ func policyViolations(r sourceaddrs.RemoteSource) []string {
 var aHosts = []string{"example.com", "EXAMPLE.com", "example.com:8080", "h", "テラフォーム.example.com", "ex ample.com"}
 var aPaths = []string{"/foo.git", "/a/b.git", "/foo.tar.gz", "/x.tgz", "/foo", "/a%2Fb.git", "/a b.git", "/é.git", "/foo.zip", "", "/", "/a//b.tgz", "/q.tar.gz/"}
 var aQueries = []string{"", "", "", "?ref=main", "?ref=a&ref=b", "?depth=1", "?archive=tgz", "?archive=tar.gz", "?archive=zip", "?checksum=x", "?a=1&archive=tar.gz", "?ref=v1%2E0",
-	"?x=%zz", "?", "?ref=", "?sshkey=k", "?archive=tgz&archive=tgz", "?archive=tar.gz&checksum=md5:x", "?b=2&a=1", "?ref=a+b"}
+	"?x=%zz", "?", "?ref=", "?sshkey=k", "?archive=tgz&archive=tgz", "?archive=tar.gz&checksum=md5:x", "?b=2&a=1", "?ref=a+b",
+	"?sshkey=x;ref=main", "?ref=a;ref=b", "?checksum=md5:x;x=1", "?depth=%zz", "?ref=main&", "?&ref=main", "?archive=tgz;checksum=x"}
 var aFrags = []string{"", "", "", "#frag", "#a b", "#a%20b"}
 var aTypes = []string{"", "", "", "git::", "GIT::", "https::", "http::", "hg::", "git::git::", "Git::", "s3::", "::"}
 var aSchemes = []string{"https://", "https://", "HTTPS://", "http://", "ssh://", "git://", "file://", "", "https:/", "Ssh://"}
